@@ -20,6 +20,7 @@ import (
 	"github.com/google/wuffs/lib/raczlib"
 	"github.com/google/wuffs/lib/raczstd"
 
+	"os"
 	"verif/racx"
 	"verif/sim"
 )
@@ -546,6 +547,44 @@ func runC13(t *sim.Tape, opt sim.RunOpt) *sim.Outcome {
 				return o
 			}
 		}
+		if !ok && w.Codec == "zstd" && len(sf.Leaves) > 0 {
+			// Zstandard: a sample of leaves (first, last, a few drawn) is
+			// decompressed by the system zstd tool and compared with the payload
+			// bytes of that leaf's decompressed range. (Not LZ4: the
+			// specification does not define its chunk format.)
+			pick := map[int]bool{0: true, len(sf.Leaves) - 1: true}
+			for k := 0; k < 3; k++ {
+				pick[t.Draw(len(sf.Leaves))] = true
+			}
+			for li := range sf.Leaves {
+				if !pick[li] {
+					continue
+				}
+				l := sf.Leaves[li]
+				got, sup, eerr := racx.ExternalDecodeLeaf(file, l, os.TempDir())
+				if !sup {
+					o.Probe("external_decode_unavailable")
+					continue
+				}
+				if eerr != nil {
+					o.Fail("spec_decode", "spec_decode:external:"+w.Codec, "leaf %d of %d: %v; workload %s", li, len(sf.Leaves), eerr, w)
+					return o
+				}
+				want := w.payload[l.D.Lo:l.D.Hi]
+				// A codec may produce fewer bytes than the DRange (the writer
+				// strips trailing zeroes): the rest is zeroes. More is wrong.
+				if len(got) > len(want) {
+					o.Fail("spec_decode", "spec_decode:external:"+w.Codec, "leaf %d of %d: the chunk's frame decodes to %d bytes, more than its DRange size %d; workload %s", li, len(sf.Leaves), len(got), len(want), w)
+					return o
+				}
+				full := append(append([]byte(nil), got...), make([]byte, max0(len(want)-len(got)))...)
+				if !bytes.Equal(full, want) {
+					o.Fail("roundtrip_mismatch", "roundtrip_mismatch:external:"+w.Codec, "leaf %d of %d (decompressed range [%d,%d)): the system %s tool decodes the chunk to bytes that differ from the payload at offset %d (len %d vs %d); workload %s", li, len(sf.Leaves), l.D.Lo, l.D.Hi, w.Codec, firstDiff(full, want), len(got), len(want), w)
+					return o
+				}
+				o.Probe("external_leaf_decode_" + w.Codec)
+			}
+		}
 		for _, l := range sf.Leaves {
 			if l.S.Size() > 0 {
 				o.Probe("leaf_with_secondary")
@@ -684,4 +723,11 @@ func firstDiff(a, b []byte) int {
 		}
 	}
 	return n
+}
+
+func max0(x int) int {
+	if x < 0 {
+		return 0
+	}
+	return x
 }
